@@ -3,6 +3,34 @@
    interleaved run is answered exactly like the run of that store alone - is evaluated by the
    driver on the implementation (two real runs), which writes PROP lines. *)
 
+(* Cross-check of extraction: with ORACLE_DUMP=<file> one line per interleaved history is appended
+   with what the EXTRACTED model computed: per model operation the result class and a checksum of
+   the answer; bin/coqreplay_c16.py recomputes the same numbers inside Coq (vm_compute). *)
+let dump_chan = match Sys.getenv_opt "ORACLE_DUMP" with
+  | Some p when p <> "" -> Some (open_out_gen [Open_append; Open_creat] 0o644 p)
+  | _ -> None
+let chk_add acc x = (acc * 31 + x + 7) mod 1000003
+let chk_bytes acc (b : n list) = List.fold_left (fun a x -> chk_add a (int_of_n x)) acc b
+let chk_blist acc l = List.fold_left (fun a b -> chk_add (chk_bytes a b) 256) acc l
+let chk_tup a ((o, r), u) = chk_add (chk_bytes (chk_add (chk_bytes (chk_add (chk_bytes a o) 256) r) 256) u) 257
+let out_code (o : t_sout) : int list =
+  match o with
+  | QOk -> [0; 0] | QCollision -> [1; 0] | QNotFound -> [2; 0]
+  | QStore (id, name) -> [3; chk_bytes (chk_add (chk_bytes 0 id) 256) name]
+  | QStores l -> [4; List.fold_left (fun a (i, n) -> chk_add (chk_bytes (chk_add (chk_bytes a i) 256) n) 257) 0 l]
+  | QWrite c -> [5; int_of_n c]
+  | QQuery (TTuples l) -> [6; List.fold_left chk_tup 0 l]
+  | QQuery (TChgs l) -> [7; List.fold_left (fun a (w, t) -> chk_tup (chk_add a (if w then 1 else 0)) t) 0 l]
+  | QQuery (TBool b) -> [8; if b then 1 else 0]
+  | QQuery (TErr c) -> [9; int_of_n c]
+  | QModel (id, b) -> [10; chk_add (chk_bytes 0 id) (int_of_n b.tb_variant)]
+  | QIds ids -> [11; chk_blist 0 ids]
+  | QAsserts l -> [12; List.fold_left (fun a x -> chk_add (chk_bytes a x.a_enc) 256) 0 l]
+let dump id nums =
+  match dump_chan with
+  | Some ch -> output_string ch (id ^ " " ^ String.concat " " (List.map string_of_int nums) ^ "\n"); flush ch
+  | None -> ()
+
 let str l = coq_to_bytes l
 let b s = bytes_to_coq s
 let body variant = { tb_enc = [n_of_int variant]; tb_wf = true; tb_valid = true; tb_ntypes = n_of_int 3;
@@ -149,7 +177,7 @@ let sql_table_diff ops =
     | _ -> None in
   go 0 tr tops
 
-let f _id vs =
+let f cid vs =
   match vs with
   | [backend; _combo; ops] when (match sql_table_diff (if as_int backend = 1 then as_list ops else []) with Some _ -> true | None -> false) ->
     (match sql_table_diff (as_list ops) with Some t -> "DIFF " ^ t | None -> "OK")
@@ -157,6 +185,7 @@ let f _id vs =
     let steps = List.map parse (as_list ops) in
     let h = List.concat_map (fun st -> st.mops) steps in
     let outs = ref (List.map snd (t_strace h)) in
+    dump cid (List.concat_map out_code !outs);
     let take n = let rec go n acc = if n = 0 then List.rev acc else match !outs with x :: r -> outs := r; go (n - 1) (x :: acc) | [] -> failwith "short" in go n [] in
     let rec go i steps =
       match steps with
